@@ -7,6 +7,7 @@ import Proofs.C13.LookbackEquiv
 import Proofs.C13.PartLB
 import Proofs.C13.Reads
 import Proofs.C13.Interleave
+import Proofs.C13.LTS
 /-!
 # C13 — property theorems (statements only; proofs in `Proofs/C13*.lean`)
 
@@ -224,6 +225,104 @@ theorem cache_fill_guard_witness :
     (queryShard { c1 with cache := setAssoc ⟨"t", 0⟩ ⟨[gi0], 1⟩ c1.cache } gst "t" 0).1 = [{ gi0 with state := .ACTIVE, ts := 0 }] ∧
     (queryShard (fresh ⟨false⟩ [gi1']) gst "t" 0).1 = [gi1'] := by
   decide
+
+/-! ### the lock sections as a labelled transition system, with clock readings -/
+
+/-- **observational equivalence for every interleaving of lock sections** (`C13.lstep`, see `Model/C13.lean`).
+Events are the critical sections of the real code: the writer's `updateRingState`; a reader's section 1
+(`getCachedShuffledSubring`, `look`), section 2 (`shuffleShard` / `filterOutReadOnlyInstances`, `comp` — a separate
+lock acquisition that does not consult the cache, so it may run although another reader has filled the entry
+meanwhile) and section 3 (`setCachedShuffledSubring`, `store n`, for any computed sub-ring, in any order, any
+number of times) — the same three for the look-back query — `CleanupShuffleShardCache`, and undisturbed queries.
+Any number of readers is any interleaving of such events. `clk e` is the `time.Now()` reading stored as
+`lastTopologyChange` by the `e`-th re-indexing, and the guard of section 3 compares READINGS. For EVERY clock that
+gives different readings to different re-indexings, every history and every state reached:
+* the client holds the latest descriptor;
+* whatever sub-ring ANY section would hand to its caller next (`lans`: a cache hit of section 1, the result of
+  section 2, an undisturbed query; plain or look-back, any key, any query time) is the one a fresh client built
+  from the latest descriptor hands out (`freshAns`);
+* no stale sub-ring is cached: every entry of the plain cache, refreshed as section 1 does, is the fresh answer;
+* `Get` / `GetReplicationSetForOperation` / token ranges / zones / counters read the indexes of the latest descriptor.
+Since the statement is about every reachable state, it covers "after quiescence" (all pending stores executed or
+abandoned) as well as every moment before. -/
+theorem lts_observational_equivalence (clk : Nat → Nat) (hclk : Function.Injective clk) (st : Streams) (cfg : Cfg)
+    (evs : List Ev) (hc : CanonEvs evs) :
+    let s := lrun clk st { c := { cfg := cfg } } evs
+    let d := lastDescL evs []
+    s.c.desc = d ∧ s.c.cfg = cfg ∧
+    (∀ x a, lans st s x = some a → freshAns cfg d st x = some a) ∧
+    (∀ k sub, lookupAssoc k s.c.cache = some sub →
+      (refresh s.c.desc sub).members = (queryShard (fresh cfg d) st k.ident k.size).1) ∧
+    (∀ rcfg k op now rfCall, readGet rcfg s.c.idx s.c.desc k op now rfCall = readGet rcfg d d k op now rfCall) ∧
+    (∀ rcfg op now, readAll rcfg s.c.idx s.c.desc op now = readAll rcfg d d op now) ∧
+    (∀ rcfg id, readRanges rcfg s.c.idx s.c.desc id = readRanges rcfg d d id) ∧
+    readZones s.c.idx = readZones d ∧ (∀ zs, counts s.c zs = counts (fresh cfg d) zs) := by
+  have hI := linv_run clk hclk st evs { c := { cfg := cfg } } (linv_init st cfg) hc
+  have hd := lrun_desc clk st evs { c := { cfg := cfg } }
+  have hi : Inv st (lrun clk st { c := { cfg := cfg } } evs).c := hI.inv
+  simp only
+  refine ⟨hd.1, hd.2, ?_, ?_, ?_, ?_, ?_, ?_, ?_⟩
+  · intro x a ha
+    have h := lans_fresh st _ hi x a ha
+    rw [hd.1, hd.2] at h; exact h
+  · intro k sub hk
+    obtain ⟨ki, ks⟩ := k
+    have h := lans_fresh st _ hi (.look ki ks) (refresh (lrun clk st { c := { cfg := cfg } } evs).c.desc sub).members
+      (by simp only [lans, lookShard, hk])
+    rw [hd.1, hd.2] at h
+    simp only [freshAns, Option.some.injEq] at h
+    rw [hd.1]; exact h.symm
+  · intro rc k op n r
+    have h := readGet_of_key rc _ _ (lrun clk st { c := { cfg := cfg } } evs).c.desc hi.keyEq k op n r
+    rw [hd.1] at h ⊢; exact h
+  · intro rc op n
+    have h := readAll_of_key rc _ _ (lrun clk st { c := { cfg := cfg } } evs).c.desc hi.keyEq op n
+    rw [hd.1] at h ⊢; exact h
+  · intro rc id
+    have h := readRanges_of_key rc _ _ (lrun clk st { c := { cfg := cfg } } evs).c.desc hi.keyEq id
+    rw [hd.1] at h ⊢; exact h
+  · have h := readZones_of_key _ _ hi.keyEq
+    rw [hd.1] at h; exact h
+  · intro zs
+    have h := counts_equiv st _ hi zs
+    rw [hd.1, hd.2] at h; exact h
+
+/-- the same for a clock that ADVANCES between two re-indexings (what `time.Now()` with its monotonic reading
+delivers unless two `setRingStateFromDesc` calls fall into one clock tick). -/
+theorem lts_observational_equivalence_advancing_clock (clk : Nat → Nat) (hclk : ∀ a b, a < b → clk a < clk b)
+    (st : Streams) (cfg : Cfg) (evs : List Ev) (hc : CanonEvs evs) :
+    let s := lrun clk st { c := { cfg := cfg } } evs
+    ∀ x a, lans st s x = some a → freshAns cfg (lastDescL evs []) st x = some a := by
+  have hinj : Function.Injective clk := by
+    intro a b e
+    rcases Nat.lt_trichotomy a b with h | h | h
+    · exact absurd e (Nat.ne_of_lt (hclk a b h))
+    · exact h
+    · exact absurd e.symm (Nat.ne_of_lt (hclk b a h))
+  exact (lts_observational_equivalence clk hinj st cfg evs hc).2.2.1
+
+/-- **the hypothesis on the clock is necessary** (`lastTopologyChange` is a wall-clock reading, not a counter):
+if two re-indexings get the SAME reading (`clk` constant), a reader that computed `ShuffleShard("t", 0)` on
+`[gi0, gi1]` and is paused before section 3 while `gi0` is removed and `gi1` changes passes the guard, its stale
+sub-ring is cached, and the next look-up serves the removed instance `gi0`; with an advancing clock the same
+history leaves the cache empty. (Needs two `setRingStateFromDesc` calls and the reader's section 2 between them
+within one tick of `time.Now()`; not reachable in the tie, where the observed readings always advance — the oracle
+reports `clk=collide` otherwise.) -/
+theorem clock_collision_witness :
+    let evs := [Ev.upd [gi0, gi1], Ev.comp "t" 0, Ev.upd [gi1'], Ev.store 0]
+    CanonEvs evs ∧
+    lans gst (lrun (fun _ => 7) gst { c := { cfg := ⟨false⟩ } } evs) (.look "t" 0) = some [{ gi0 with state := .ACTIVE, ts := 0 }] ∧
+    freshAns ⟨false⟩ (lastDescL evs []) gst (.look "t" 0) = some [gi1'] ∧
+    lans gst (lrun id gst { c := { cfg := ⟨false⟩ } } evs) (.look "t" 0) = none := by
+  refine ⟨?_, by decide, by decide, by decide⟩
+  intro s hs d hd
+  simp only [List.mem_cons, List.not_mem_nil, or_false] at hs
+  rcases hs with rfl | rfl | rfl | rfl <;> cases hd <;> (unfold Canon; decide)
+
+/-- section 2 may run although the cache already holds the entry (two readers missed one after the other): the
+second store OVERWRITES the first; both sub-rings are the fresh one. -/
+example : let evs := [Ev.upd [gi0, gi1], Ev.look "t" 0, Ev.look "t" 0, Ev.comp "t" 0, Ev.comp "t" 0, Ev.store 0, Ev.store 1]
+    lans gst (lrun id gst { c := { cfg := ⟨false⟩ } } evs) (.look "t" 0) = some [gi0] := by decide
 
 /-- **lookback_window_valid**: after any history, a cached look-back sub-ring is valid for every
 window start in `[after, before]`: there the ring itself would not be returned and the look-back
